@@ -26,9 +26,9 @@ func init() {
 			Rule: rule,
 		}
 	}
-	register(common("C05", 0, "histories over 2-4 five-tuples (IPv4 and IPv6; intra-node, to-external, inter-node correlated, egress-denied, ingress-rejected, ingress-dropped) of records from source/destination nodes respecting the exporter contract (per node end times strictly increase, totals do not decrease, end > start), resets and exports, checked against the sequential model after every operation; non-trivial = at least 3 records aggregated into an existing flow; distinct = distinct event-log hash"))
-	register(common("C06", 1, "histories of {record, clock advance (0, 1 ns, exactly to a deadline, deadline +/- 1 ns, multiples of the timeouts), expiry scan whose callback fails on chosen invocations}; callback set/order, map/heap bijection, heap order and deadlines checked after every operation; non-trivial = at least 2 scans that exported something or a scan with a failing callback; distinct = distinct event-log hash"))
-	register(common("C07", 2, "histories of source-node and destination-node records of inter-node flows in all arrival orders and multiplicities, interleaved with expiry scans up to retry exhaustion; ready/filled status, merged fields and retry/drop timing checked against the model; non-trivial = at least one correlation or one retry; distinct = distinct event-log hash"))
+	register(common("C05", 0, "histories over 2-4 five-tuples (IPv4 and IPv6; intra-node, to-external, inter-node correlated, egress-denied, ingress-rejected, ingress-dropped) of records from source/destination nodes respecting the exporter contract (per node end times strictly increase, totals do not decrease, end > start), resets, exports and queries (one key, all flows, a partial key), several records per message, three element orders, records that omit an element, free-text httpVals (JSON objects and text that is none), through direct calls or the worker pool; checked against the sequential model after every operation; non-trivial = at least 3 records aggregated into an existing flow; distinct = distinct event-log hash"))
+	register(common("C06", 1, "histories of {record, clock advance (0, 1 ns, exactly to a deadline, deadline +/- 1 ns, multiples of the timeouts), expiry scan whose callback fails on chosen invocations or takes time, query}; callback set/order, map/heap bijection, heap order and deadlines checked after every operation; non-trivial = at least 2 scans that exported something or a scan with a failing callback; distinct = distinct event-log hash"))
+	register(common("C07", 2, "histories of source-node and destination-node records of inter-node flows in all arrival orders and multiplicities, with the full correlate list, one with an unsupported entry, a partial one or none, boundary values in numeric correlate fields, interleaved with expiry scans up to retry exhaustion; ready/filled status, merged fields and retry/drop timing checked against the model; non-trivial = at least one correlation or one retry; distinct = distinct event-log hash"))
 }
 
 type genFlow struct {
